@@ -15,7 +15,7 @@ ROOT = os.path.dirname(os.path.dirname(os.path.abspath(__file__)))
 REPO = os.environ.get("VERIF_REPO", "/repo")
 BUILD = os.path.join(ROOT, "build")
 COQ = os.path.join(ROOT, "coq")
-BIN = os.path.join(BUILD, "bin")
+BIN = os.path.join(BUILD, "bin-" + hashlib.sha1(REPO.encode()).hexdigest()[:8])
 FORBIDDEN = r"Admitted|admit\b|\bAxiom\b|\bParameter\b|\bConjecture\b|Unset Guard|bypass_check|Admit Obligations|-type-in-type|impredicative-set|native_compute"
 ALLOWED_AXIOMS = set()   # no axioms are expected anywhere; stdlib axioms would have to be named here
 
@@ -89,8 +89,10 @@ def sh(cmd, **kw):
                           universal_newlines=True, **kw)
 
 
-def coq_build():
-    """full .vo build of the development (no -vos); returns (ok, logtext)"""
+def coq_build(deps=None):
+    """full .vo build of the development (no -vos); returns (ok, logtext).  With deps (a list of
+    file base names) a failure in a file outside deps is tolerated (make -k): several properties
+    share the tree and one broken file must not take the others down."""
     with Lock("coq"):
         os.makedirs(BUILD, exist_ok=True)
         mk = os.path.join(COQ, "Makefile.coq")
@@ -99,9 +101,15 @@ def coq_build():
             r = sh("coq_makefile -f _CoqProject -o Makefile.coq", cwd=COQ)
             if r.returncode != 0:
                 return False, r.stdout
-        r = sh("timeout 3000 make -f Makefile.coq -j16", cwd=COQ)
+        r = sh("timeout 3000 make -k -f Makefile.coq -j16", cwd=COQ)
         with open(os.path.join(BUILD, "coq.log"), "a") as f:
             f.write(r.stdout)
+        if r.returncode != 0 and deps:
+            failed = set(re.findall(r"theories/\S*?/(\w+)\.vo\b.*Error", r.stdout)) | \
+                set(re.findall(r'File "\./theories/\S*?/(\w+)\.v"', r.stdout))
+            if failed and not (failed & set(deps)):
+                log("coq: ignoring build failures outside this property's files:", sorted(failed))
+                return True, r.stdout
         return r.returncode == 0, r.stdout
 
 
@@ -118,13 +126,13 @@ def forbidden_hits():
     return hits
 
 
-def harness_build():
-    """rebuild the Go harness from /repo's CURRENT working tree; returns (ok, log)"""
+def harness_build(cmd):
+    """rebuild one harness command from the repository's CURRENT working tree; returns (ok, log)"""
     with Lock("harness"):
         env = dict(os.environ)
         env.update(GOENV)
         env["VERIF_REPO"] = REPO
-        r = sh([os.path.join(ROOT, "harness", "build.sh"), BIN], env=env)
+        r = sh([os.path.join(ROOT, "harness", "build.sh"), BIN, cmd], env=env)
         return r.returncode == 0, r.stdout
 
 
@@ -179,11 +187,11 @@ class Ctx:
         return self.tier == "quick"
 
     # -------------------------------------------------------------- proofs
-    def theorems(self, module, names, refuted=(), extra_modules=()):
+    def theorems(self, module, names, refuted=(), extra_modules=(), deps=None):
         """Re-check, against the compiled development, that every named theorem exists and what
         it assumes.  `names` are the theorems that decide the property; `refuted` are witnesses
         kept for documentation."""
-        ok, out = coq_build()
+        ok, out = coq_build(deps)
         self.cov["checker_cmd"] = ("make -C coq -f Makefile.coq (coqc 8.16.1, full .vo build) + "
                                    "coqc Print Assumptions on %s; thorough tier adds coqchk -silent -o" % module)
         hits = forbidden_hits()
@@ -232,18 +240,20 @@ class Ctx:
         return good
 
     # -------------------------------------------------------------- implementation
-    def build_harness(self):
+    def build_harness(self, cmd="gh"):
         if self.harness_ok is None:
-            ok, out = harness_build()
-            self.harness_ok = ok
+            self.harness_ok = {}
+        if cmd not in self.harness_ok:
+            ok, out = harness_build(cmd)
+            self.harness_ok[cmd] = ok
             if not ok:
-                self.violation("correspondence", "the harness no longer builds against /repo's working tree",
+                self.violation("correspondence", "the harness (%s) no longer builds against the working tree" % cmd,
                                {"log": out[-4000:]}, found=False, theorem="harness build")
-        return self.harness_ok
+        return self.harness_ok[cmd]
 
-    def harness(self, sub, cases, shards=None, timeout=1800, env=None):
+    def harness(self, sub, cases, shards=None, timeout=1800, env=None, cmd="gh"):
         """run cases (list of dicts) on the real code; returns list of observation dicts"""
-        if not self.build_harness():
+        if not self.build_harness(cmd):
             return None
         if shards is None:
             shards = 1 if len(cases) < 200 else 16
@@ -253,7 +263,7 @@ class Ctx:
         if env:
             e.update(env)
         for ch in chunks:
-            p = subprocess.Popen([os.path.join(BIN, "gh"), sub], stdin=subprocess.PIPE, stdout=subprocess.PIPE,
+            p = subprocess.Popen([os.path.join(BIN, cmd), sub], stdin=subprocess.PIPE, stdout=subprocess.PIPE,
                                  stderr=subprocess.PIPE, env=e)
             procs.append(p)
         outs = []
